@@ -61,6 +61,8 @@ func VX_C15_readcsv() {
 	var ferr error = vxBoom
 	if vx.Bool() {
 		ferr = vxWrapEOF{} // not io.EOF itself: a failure, whatever it wraps
+	} else if vx.Bool() {
+		ferr = io.ErrUnexpectedEOF // what truncated gzip streams, short HTTP bodies and LimitReaders report
 	}
 	f := ReadCSV(&vxFailReader{d: doc, failAt: failAt, chunk: chunk, withData: vx.Bool(), err: ferr}, opts...)
 	vx.Check(f.Err != nil, "a failing reader is reported through Err")
